@@ -343,7 +343,7 @@ Verdict runC11(const Case &cs) {
       Outcome a = runParse(*bt, codes, cf);
       Outcome b = runParse(*bc, codes, cf);
       v.parses += 2;
-      if (a.hook.rec_explosion || b.hook.rec_explosion) { v.labels.insert("excluded:F27-recovery-explosion"); continue; }
+      if (a.exploded() || b.exploded()) { v.labels.insert((a.exploded() ? a : b).explosionLabel()); continue; }
       if (a.tupleStr() != b.tupleStr()) { v.fail("parse outcomes differ [" + cf.str() + "] text: " + a.str() + "  callbacks: " + b.str()); return v; }
     }
   }
